@@ -1,8 +1,1246 @@
-//! placeholder: this component is not built yet
+//! C05 / C06 — the whole assembly pipeline (`Context::assemble` + `close_segment` + `finalize`).
+//!
+//! C05: generated well-formed projects (AST → text); oracle = a two-pass reference layout computed here from the
+//!      AST (pass 1: addresses and symbol values, sizes are value independent; pass 2: every expression in the
+//!      final symbol table); the real image must equal it exactly and no diagnostic may be recorded. The same
+//!      program is sent in abstract form (`layout run …`) to the Lean model `Trion.Layout`.
+//! C06: the same projects with one ill-formed construct spliced in, byte-level mutations, and a corpus of the
+//!      panics found at design time; oracle = no panic, outcome shape, invalid constructs diagnosed. The
+//!      self-include stack overflow (known finding K2) is exercised in a child process.
+use std::collections::{BTreeMap, HashMap};
+
+use trion::arm6m::asm::{ImmReg, Instruction};
+use trion::arm6m::cond::Condition;
+use trion::arm6m::reg::Register;
+use trion::arm6m::regset::RegisterSet;
+use trion::arm6m::Arm6M;
+use trion::asm::directive::DirectiveList;
+use trion::asm::Context;
+
 use crate::common::*;
+
+// ---------------------------------------------------------------------------------------------------------
+// expressions
+
+#[derive(Clone, Debug)]
+pub enum E
+{
+	Num(i64),
+	Name(String),
+	Bin(&'static str, Box<E>, Box<E>),
+	Neg(Box<E>),
+}
+
+impl E
+{
+	fn render(&self, rng: &mut Rng) -> String
+	{
+		match self
+		{
+			E::Num(v) =>
+			{
+				if *v < 0 {format!("(0 - {})", -(*v as i128))}
+				else
+				{
+					match rng.below(4)
+					{
+						0 => format!("0x{v:X}"),
+						1 if *v < 256 => format!("0b{v:b}"),
+						_ => format!("{v}"),
+					}
+				}
+			},
+			E::Name(n) => n.clone(),
+			E::Bin(op, l, r) => format!("({} {} {})", l.render(rng), op, r.render(rng)),
+			E::Neg(a) => format!("(-{})", a.render(rng)),
+		}
+	}
+
+	fn eval(&self, env: &HashMap<String, i64>) -> Option<i64>
+	{
+		Some(match self
+		{
+			E::Num(v) => *v,
+			E::Name(n) => *env.get(n)?,
+			E::Neg(a) => a.eval(env)?.checked_neg()?,
+			E::Bin(op, l, r) =>
+			{
+				let (l, r) = (l.eval(env)?, r.eval(env)?);
+				match *op
+				{
+					"+" => l.checked_add(r)?,
+					"-" => l.checked_sub(r)?,
+					"*" => l.checked_mul(r)?,
+					"/" => if r == 0 {return None} else {l.checked_div(r)?},
+					"%" => if r == 0 {return None} else {l.checked_rem(r)?},
+					"&" => l & r,
+					"|" => l | r,
+					"^" => l ^ r,
+					"<<" => if !(0..64).contains(&r) || l < 0 || (l as i128) << r > i64::MAX as i128 {return None} else {l << r},
+					">>" => if !(0..64).contains(&r) || l < 0 {return None} else {l >> r},
+					_ => unreachable!(),
+				}
+			},
+		})
+	}
+
+	fn names(&self, out: &mut Vec<String>)
+	{
+		match self
+		{
+			E::Num(..) => (),
+			E::Name(n) => if !out.contains(n) {out.push(n.clone())},
+			E::Bin(_, l, r) => {l.names(out); r.names(out);},
+			E::Neg(a) => a.names(out),
+		}
+	}
+}
+
+// ---------------------------------------------------------------------------------------------------------
+// statements
+
+#[derive(Clone, Debug)]
+pub enum Ins
+{
+	/// operand-free or fully literal instruction: text (without ';') and its value
+	Fixed(String, Instruction),
+	MovImm(u8, E),
+	AddImm(u8, E),
+	CmpImm(u8, E),
+	LdrOff(u8, u8, E),
+	Svc(E),
+	Branch(Option<Condition>, E),
+	Bl(E),
+	Adr(u8, E),
+	LdrLit(u8, E),
+}
+
+#[derive(Clone, Debug)]
+pub enum St
+{
+	Addr(u32),
+	Align(u32),
+	Const(String, E),
+	Label(String),
+	Du(u8, E),
+	Dstr(String),
+	Dhex(Vec<u8>),
+	Dfile(String, Vec<u8>),
+	Ins(Ins),
+	Global(String),
+	Import(String),
+	Export(String),
+	Include(String, Vec<St>),
+	/// raw text spliced in by the C06 generator
+	Raw(String),
+}
+
+fn reg(n: u8) -> Register {Register::try_from(n).unwrap()}
+
+const COND_NAMES: [(&str, Condition); 16] = [
+	("BEQ", Condition::Equal), ("BNE", Condition::NonEqual), ("BCS", Condition::CarrySet), ("BHS", Condition::CarrySet),
+	("BCC", Condition::CarryClear), ("BLO", Condition::CarryClear), ("BMI", Condition::Minus), ("BPL", Condition::Plus),
+	("BVS", Condition::Overflow), ("BVC", Condition::NoOverflow), ("BHI", Condition::Higher), ("BLS", Condition::LowerEqual),
+	("BGE", Condition::GreaterEqual), ("BLT", Condition::Less), ("BGT", Condition::Greater), ("BLE", Condition::LessEqual),
+];
+
+impl Ins
+{
+	fn size(&self) -> u32 {if matches!(self, Ins::Bl(..)) {4} else if let Ins::Fixed(_, i) = self {enc(i).len() as u32} else {2}}
+
+	fn expr(&self) -> Option<&E>
+	{
+		match self
+		{
+			Ins::Fixed(..) => None,
+			Ins::MovImm(_, e) | Ins::AddImm(_, e) | Ins::CmpImm(_, e) | Ins::LdrOff(_, _, e) | Ins::Svc(e) | Ins::Branch(_, e)
+				| Ins::Bl(e) | Ins::Adr(_, e) | Ins::LdrLit(_, e) => Some(e),
+		}
+	}
+
+	fn render(&self, rng: &mut Rng) -> String
+	{
+		let r = |n: &u8, rng: &mut Rng| -> String
+		{
+			let s = match (*n, rng.below(3)) {(13, 0) => "SP".to_owned(), (14, 0) => "LR".to_owned(), (15, 0) => "PC".to_owned(), (n, _) => format!("R{n}")};
+			if rng.chance(1, 4) {s.to_lowercase()} else {s}
+		};
+		let m = |s: &str, rng: &mut Rng| -> String {if rng.chance(1, 4) {s.to_lowercase()} else {s.to_owned()}};
+		match self
+		{
+			Ins::Fixed(t, _) => t.clone(),
+			Ins::MovImm(d, e) => format!("{} {}, {}", m("MOVS", rng), r(d, rng), e.render(rng)),
+			Ins::AddImm(d, e) => {let d = r(d, rng); format!("{} {d}, {d}, {}", m("ADDS", rng), e.render(rng))},
+			Ins::CmpImm(d, e) => format!("{} {}, {}", m("CMP", rng), r(d, rng), e.render(rng)),
+			Ins::LdrOff(d, a, e) => if rng.chance(1, 2) {format!("{} {}, [{} + {}]", m("LDR", rng), r(d, rng), r(a, rng), e.render(rng))}
+				else {format!("{} {}, [{} + {}]", m("LDR", rng), r(d, rng), e.render(rng), r(a, rng))},
+			Ins::Svc(e) => format!("{} {}", m("SVC", rng), e.render(rng)),
+			Ins::Branch(None, e) => format!("{} {}", m("B", rng), e.render(rng)),
+			Ins::Branch(Some(c), e) =>
+			{
+				let names: Vec<&str> = COND_NAMES.iter().filter(|(_, k)| k == c).map(|(n, _)| *n).collect();
+				{let nm = *rng.pick(&names[..]); format!("{} {}", m(nm, rng), e.render(rng))}
+			},
+			Ins::Bl(e) => format!("{} {}", m("BL", rng), e.render(rng)),
+			Ins::Adr(d, e) => format!("{} {}, {}", m("ADR", rng), r(d, rng), e.render(rng)),
+			Ins::LdrLit(d, e) => format!("{} {}, {}", m("LDR", rng), r(d, rng), e.render(rng)),
+		}
+	}
+
+	/// the instruction value the statement denotes at `addr` in `env`; None = not encodable (generator must avoid)
+	fn value(&self, addr: u32, env: &HashMap<String, i64>) -> Option<Instruction>
+	{
+		let v = match self.expr() {Some(e) => e.eval(env)?, None => 0};
+		Some(match self
+		{
+			Ins::Fixed(_, i) => *i,
+			Ins::MovImm(d, _) => Instruction::Mov{flags: true, dst: reg(*d), src: ImmReg::Immediate(i32::try_from(v).ok()?)},
+			Ins::AddImm(d, _) => Instruction::Add{flags: true, dst: reg(*d), lhs: reg(*d), rhs: ImmReg::Immediate(i32::try_from(v).ok()?)},
+			Ins::CmpImm(d, _) => Instruction::Cmp{lhs: reg(*d), rhs: ImmReg::Immediate(i32::try_from(v).ok()?)},
+			Ins::LdrOff(d, a, _) => Instruction::Ldr{dst: reg(*d), addr: reg(*a), off: ImmReg::Immediate(i32::try_from(v).ok()?)},
+			Ins::Svc(_) => Instruction::Svc{info: u8::try_from(v).ok()?},
+			Ins::Branch(c, _) =>
+			{
+				let tgt = u32::try_from(v).ok()?;
+				let off = tgt as i64 - addr.wrapping_add(4) as i64;
+				Instruction::B{cond: c.unwrap_or(Condition::Always), off: i32::try_from(off).ok()?}
+			},
+			Ins::Bl(_) =>
+			{
+				let tgt = u32::try_from(v).ok()?;
+				Instruction::Bl{off: i32::try_from(tgt as i64 - addr.wrapping_add(4) as i64).ok()?}
+			},
+			Ins::Adr(d, _) =>
+			{
+				let tgt = u32::try_from(v).ok()?;
+				let off = tgt as i64 - (addr & !3).wrapping_add(4) as i64;
+				Instruction::Adr{dst: reg(*d), off: u16::try_from(off).ok()?}
+			},
+			Ins::LdrLit(d, _) =>
+			{
+				let tgt = u32::try_from(v).ok()?;
+				let off = tgt as i64 - (addr & !3).wrapping_add(4) as i64;
+				if off < 0 {return None;}
+				Instruction::Ldr{dst: reg(*d), addr: Register::PC, off: ImmReg::Immediate(i32::try_from(off).ok()?)}
+			},
+		})
+	}
+}
+
+fn enc(i: &Instruction) -> Vec<u8>
+{
+	let mut b = [0u8; 4];
+	match i.encode(&mut b) {Ok(n) => b[..n].to_vec(), Err(..) => Vec::new()}
+}
+
+// ---------------------------------------------------------------------------------------------------------
+// projects
+
+#[derive(Clone, Debug)]
+pub struct Project
+{
+	/// file name → text; "main.asm" is the entry point; binary files for .dfile too
+	pub files: Vec<(String, Vec<u8>)>,
+}
+
+impl Project
+{
+	pub fn single(text: &[u8]) -> Self {Self{files: vec![("main.asm".to_owned(), text.to_vec())]}}
+
+	pub fn to_input(&self) -> String
+	{
+		format!("proj {}", self.files.iter().map(|(n, d)| format!("{n}={}", hex(d))).collect::<Vec<_>>().join(" "))
+	}
+
+	pub fn from_input(s: &str) -> Option<Self>
+	{
+		let rest = s.strip_prefix("proj ")?;
+		let mut files = Vec::new();
+		for part in rest.split(' ').filter(|p| !p.is_empty())
+		{
+			let (n, d) = part.split_once('=')?;
+			files.push((n.to_owned(), unhex(d)?));
+		}
+		Some(Self{files})
+	}
+
+	pub fn write(&self, dir: &std::path::Path)
+	{
+		let _ = std::fs::remove_dir_all(dir);
+		std::fs::create_dir_all(dir).unwrap();
+		for (n, d) in &self.files {std::fs::write(dir.join(n), d).unwrap();}
+	}
+}
+
+/// What the real pipeline did with a project.
+#[derive(Clone, Debug)]
+pub struct Outcome
+{
+	pub assemble_ok: bool,
+	pub close_err: Option<String>,
+	pub finalize: bool,
+	/// (file, line, col, rendered message incl. sources)
+	pub errors: Vec<(String, u32, u32, String)>,
+	pub image: BTreeMap<u32, u8>,
+	pub segments: Vec<(u32, usize)>,
+}
+
+/// `assemble` + `close_segment` + `finalize` exactly as src/bin/assembler.rs drives them; Err = panic message
+pub fn run_real(dir: &std::path::Path) -> Result<Outcome, String>
+{
+	let path = dir.join("main.asm");
+	let data = std::fs::read(&path).unwrap();
+	guarded(||
+	{
+		let directives = DirectiveList::generate();
+		let mut ctx = Context::new(&Arm6M, &directives);
+		let (res, _) = ctx.assemble(&data, path.clone());
+		let close_err = match ctx.close_segment() {Ok(..) => None, Err(e) => Some(format!("{e}"))};
+		let fin = if close_err.is_none() {ctx.finalize()} else {false};
+		let mut errors = Vec::new();
+		for e in ctx.get_errors()
+		{
+			let mut msg = format!("{}", &e.value);
+			let mut src = std::error::Error::source(&e.value);
+			while let Some(s) = src
+			{
+				msg.push_str(" <- ");
+				msg.push_str(&format!("{s}"));
+				src = s.source();
+			}
+			errors.push((e.name.as_ref().clone(), e.line, e.col, msg));
+		}
+		let mut image = BTreeMap::new();
+		let mut segments = Vec::new();
+		for (range, seg) in ctx.output().iter()
+		{
+			segments.push((range.get_first(), seg.len()));
+			for (i, b) in seg.iter().enumerate() {image.insert(range.get_first().wrapping_add(i as u32), *b);}
+		}
+		Outcome{assemble_ok: res.is_ok(), close_err, finalize: fin, errors, image, segments}
+	})
+}
+
+// ---------------------------------------------------------------------------------------------------------
+// generator of well-formed programs
+
+struct Gen<'a>
+{
+	rng: &'a mut Rng,
+	next_name: usize,
+	/// names with a value known at the current point of the CURRENT file (usable in .const / .addr / .align)
+	known: Vec<String>,
+	/// names usable in deferred positions of the current file (own labels/consts anywhere, children's globals)
+	usable: Vec<String>,
+	files: Vec<(String, Vec<u8>)>,
+	next_file: usize,
+}
+
+const FIXED: &[(&str, fn() -> Instruction)] = &[
+	("NOP", || Instruction::Nop),
+	("WFI", || Instruction::Wfi),
+	("SEV", || Instruction::Sev),
+	("ADCS R1, R2", || Instruction::Adc{dst: Register::R1, rhs: Register::R2}),
+	("MOV R8, R0", || Instruction::Mov{flags: false, dst: Register::R8, src: ImmReg::Register(Register::R0)}),
+	("ADD R0, R0, R9", || Instruction::Add{flags: false, dst: Register::R0, lhs: Register::R0, rhs: ImmReg::Register(Register::R9)}),
+	("PUSH {R0, R4, LR}", || Instruction::Push{registers: RegisterSet::of(0b0100_0000_0001_0001)}),
+	("POP {R1, PC}", || Instruction::Pop{registers: RegisterSet::of(0b1000_0000_0000_0010)}),
+	("BX LR", || Instruction::Bx{off: Register::LR}),
+	("MRS R3, PRIMASK", || Instruction::Mrs{dst: Register::R3, src: trion::arm6m::sysreg::SystemReg::PRIMASK}),
+	("DSB SY", || Instruction::Dsb),
+	("UDF.W 4660", || Instruction::Udfw{info: 4660}),
+	("STR R2, [SP + 8]", || Instruction::Str{src: Register::R2, addr: Register::SP, off: ImmReg::Immediate(8)}),
+	("LDRSB R1, [R2 + R3]", || Instruction::Ldrsb{dst: Register::R1, addr: Register::R2, off: Register::R3}),
+	("CPSID i", || Instruction::Cps{enable: false}),
+	("RSBS R1, R2, 0", || Instruction::Rsb{dst: Register::R1, lhs: Register::R2}),
+	("LSLS R1, R2, 31", || Instruction::Lsl{dst: Register::R1, value: Register::R2, shift: ImmReg::Immediate(31)}),
+];
+
+/// a statement list for one file plus bookkeeping; bases are symbolic (`St::Addr` is inserted later)
+#[derive(Clone, Debug)]
+struct Region {stmts: Vec<St>}
+
+impl<'a> Gen<'a>
+{
+	fn fresh(&mut self, prefix: &str) -> String
+	{
+		self.next_name += 1;
+		let styles = ["{p}{n}", "{p}_{n}", "{p}.x{n}", "_{p}{n}", "{p}${n}"];
+		rng_style(*self.rng.pick(&styles[..]), prefix, self.next_name)
+	}
+}
+
+fn rng_style(style: &str, p: &str, n: usize) -> String {style.replace("{p}", p).replace("{n}", &n.to_string())}
+
+/// An expression whose value in `env_final` is `want`, built around a symbol `sym` (value `symv`) when given.
+fn expr_for(rng: &mut Rng, sym: Option<(&str, i64)>, want: i64) -> E
+{
+	match sym
+	{
+		None =>
+		{
+			match rng.below(5)
+			{
+				0 if want >= 2 && want % 2 == 0 => E::Bin("*", Box::new(E::Num(want / 2)), Box::new(E::Num(2))),
+				1 => E::Bin("+", Box::new(E::Num(want - 3)), Box::new(E::Num(3))),
+				2 if want >= 0 => E::Bin("|", Box::new(E::Num(want & 0x55)), Box::new(E::Num(want & !0x55))),
+				3 if want >= 0 && want < (1 << 40) => E::Bin(">>", Box::new(E::Num(want << 3)), Box::new(E::Num(3))),
+				_ => E::Num(want),
+			}
+		},
+		Some((name, v)) =>
+		{
+			let s = Box::new(E::Name(name.to_owned()));
+			let d = want - v;
+			match rng.below(6)
+			{
+				0 => E::Bin("+", s, Box::new(E::Num(d))),
+				1 => E::Bin("-", s, Box::new(E::Num(-d))),
+				2 => E::Bin("+", Box::new(E::Num(d)), s),
+				3 => E::Bin("-", Box::new(E::Bin("+", s, Box::new(E::Num(d + 7)))), Box::new(E::Num(7))),
+				4 => E::Bin("+", Box::new(E::Bin("+", s, Box::new(E::Num(1)))), Box::new(E::Num(d - 1))),
+				_ if d == 0 => *s,
+				_ => E::Bin("+", Box::new(E::Bin("*", s, Box::new(E::Num(1)))), Box::new(E::Num(d))),
+			}
+		},
+	}
+}
+
+/// Sizes are value independent.
+fn st_size(st: &St, cursor: u32) -> u32
+{
+	match st
+	{
+		St::Addr(..) | St::Const(..) | St::Label(..) | St::Global(..) | St::Import(..) | St::Export(..) | St::Raw(..) => 0,
+		St::Align(n) => if cursor % n == 0 {0} else {n - cursor % n},
+		St::Du(k, _) => *k as u32,
+		St::Dstr(s) => s.len() as u32,
+		St::Dhex(b) => b.len() as u32,
+		St::Dfile(_, b) => b.len() as u32,
+		St::Ins(i) => i.size(),
+		St::Include(_, body) =>
+		{
+			let mut c = cursor;
+			for s in body {c = c.wrapping_add(st_size(s, c));}
+			c.wrapping_sub(cursor)
+		},
+	}
+}
+
+/// pass 1: label/const values (flat environment: the generator makes all names unique)
+fn pass1(stmts: &[St], cursor: &mut Option<u32>, env: &mut HashMap<String, i64>) -> Option<()>
+{
+	for st in stmts
+	{
+		match st
+		{
+			St::Addr(a) => *cursor = Some(*a),
+			St::Label(n) => {env.insert(n.clone(), cursor.clone()? as i64);},
+			St::Const(n, e) => {let v = e.eval(env)?; env.insert(n.clone(), v);},
+			St::Include(_, body) => pass1(body, cursor, env)?,
+			_ => {let c = cursor.as_mut()?; *c = c.checked_add(st_size(st, *c))?;},
+		}
+	}
+	Some(())
+}
+
+/// pass 2: bytes
+fn pass2(stmts: &[St], cursor: &mut Option<u32>, env: &HashMap<String, i64>, image: &mut BTreeMap<u32, u8>) -> Option<()>
+{
+	for st in stmts
+	{
+		let bytes: Vec<u8> = match st
+		{
+			St::Addr(a) => {*cursor = Some(*a); continue;},
+			St::Label(..) | St::Const(..) | St::Global(..) | St::Import(..) | St::Export(..) | St::Raw(..) => continue,
+			St::Include(_, body) => {pass2(body, cursor, env, image)?; continue;},
+			St::Align(..) => vec![0xBE; st_size(st, cursor.clone()?) as usize],
+			St::Du(k, e) =>
+			{
+				let v = e.eval(env)?;
+				match k
+				{
+					1 => vec![u8::try_from(v).ok()?],
+					2 => u16::try_from(v).ok()?.to_le_bytes().to_vec(),
+					_ => u32::try_from(v).ok()?.to_le_bytes().to_vec(),
+				}
+			},
+			St::Dstr(s) => s.as_bytes().to_vec(),
+			St::Dhex(b) => b.clone(),
+			St::Dfile(_, b) => b.clone(),
+			St::Ins(i) =>
+			{
+				let b = enc(&i.value(cursor.clone()?, env)?);
+				if b.is_empty() {return None;}
+				b
+			},
+		};
+		let c = cursor.as_mut()?;
+		for (i, b) in bytes.iter().enumerate()
+		{
+			if image.insert(c.checked_add(i as u32)?, *b).is_some() {return None;} // generator error: overlap
+		}
+		*c = c.checked_add(bytes.len() as u32).unwrap_or(u32::MAX);
+	}
+	Some(())
+}
+
+fn render_stmts(stmts: &[St], rng: &mut Rng, files: &mut Vec<(String, Vec<u8>)>) -> String
+{
+	let mut out = String::new();
+	for st in stmts
+	{
+		let sep = match rng.below(8) {0 => "\n", 1 => "\n\t", 2 => " // c\n", 3 => " /* c /* n */ */ ", 4 => "\r\n", _ => "\n"};
+		let ws = |rng: &mut Rng| -> &'static str {match rng.below(6) {0 => "  ", 1 => "\t", 2 => " /*x*/ ", _ => " "}};
+		let line = match st
+		{
+			St::Addr(a) => format!(".addr{}0x{a:X};", ws(rng)),
+			St::Align(n) => format!(".align {n};"),
+			St::Const(n, e) => format!(".const {n},{}{};", ws(rng), e.render(rng)),
+			St::Label(n) => format!("{n}:"),
+			St::Du(k, e) => format!(".du{}{}{};", *k as u32 * 8, ws(rng), e.render(rng)),
+			St::Dstr(s) => format!(".dstr \"{}\";", s.replace('\\', "\\\\").replace('"', "\\\"")),
+			St::Dhex(b) => format!(".dhex \"{}\";", b.iter().map(|x| if rng.chance(1, 3) {format!("{x:02X} ")} else {format!("{x:02x}")}).collect::<String>()),
+			St::Dfile(n, b) =>
+			{
+				if !files.iter().any(|(f, _)| f == n) {files.push((n.clone(), b.clone()));}
+				format!(".dfile \"{n}\";")
+			},
+			St::Ins(i) => format!("{};", i.render(rng)),
+			St::Global(n) => format!(".global {n};"),
+			St::Import(n) => format!(".import {n};"),
+			St::Export(n) => format!(".export {n};"),
+			St::Include(n, body) =>
+			{
+				let text = render_stmts(body, rng, files);
+				files.push((n.clone(), text.into_bytes()));
+				format!(".include \"{n}\";")
+			},
+			St::Raw(t) => t.clone(),
+		};
+		out.push_str(&line);
+		out.push_str(sep);
+	}
+	out
+}
+
+/// One generated well-formed program: statements with concrete region bases, plus the reference image.
+pub struct Generated
+{
+	pub stmts: Vec<St>,
+	pub project: Project,
+	pub image: BTreeMap<u32, u8>,
+	pub env: HashMap<String, i64>,
+	pub shape: Vec<&'static str>,
+}
+
+fn gen_body(g: &mut Gen, n: usize, depth: usize, shape: &mut Vec<&'static str>, labels_here: &mut Vec<String>) -> Vec<St>
+{
+	// first decide the labels/consts of this file so that forward references are possible
+	let nlabels = 1 + g.rng.below(3) as usize;
+	let mut future: Vec<String> = (0..nlabels).map(|_| g.fresh("lab")).collect();
+	labels_here.extend(future.iter().cloned());
+	let mut body = Vec::new();
+	let mut placed = 0usize;
+	for i in 0..n
+	{
+		// sprinkle label definitions
+		if !future.is_empty() && (g.rng.chance(1, 3) || n - i <= future.len())
+		{
+			let l = future.remove(0);
+			body.push(St::Label(l.clone()));
+			g.known.push(l);
+			placed += 1;
+		}
+		let pick = g.rng.below(20);
+		let st = match pick
+		{
+			0 | 1 =>
+			{
+				let n = g.fresh("k");
+				let e = if !g.known.is_empty() && g.rng.chance(1, 2)
+				{
+					// constants may only use names whose value is known at this point; the value is resolved later by pass 1
+					let s = g.rng.pick(&g.known).clone();
+					E::Bin(*g.rng.pick(&["+", "-", "|"]), Box::new(E::Name(s)), Box::new(E::Num(g.rng.below(64) as i64)))
+				}
+				else {E::Num(g.rng.below(300) as i64)};
+				g.known.push(n.clone());
+				shape.push("const");
+				St::Const(n, e)
+			},
+			2 | 3 | 4 => {shape.push("du"); St::Du(*g.rng.pick(&[1u8, 2, 4]), E::Num(0) /* filled in later */)},
+			5 => {shape.push("dstr"); St::Dstr(g.rng.pick(&["", "a", "hé\"llo", "tab\\t", "xyzw"]).to_string())},
+			6 => {shape.push("dhex"); St::Dhex((0..g.rng.below(6)).map(|_| g.rng.next() as u8).collect())},
+			7 =>
+			{
+				shape.push("dfile");
+				g.next_file += 1;
+				St::Dfile(format!("blob{}.bin", g.next_file), (0..g.rng.below(2000) % 1500).map(|_| g.rng.next() as u8).collect())
+			},
+			8 => {shape.push("align"); St::Align(*g.rng.pick(&[1u32, 2, 4, 8, 16, 3, 256]))},
+			9 | 10 | 11 => {shape.push("fixed-instr"); let (t, f) = g.rng.pick(FIXED); St::Ins(Ins::Fixed(t.to_string(), f()))},
+			12 => {shape.push("imm-instr"); St::Ins(match g.rng.below(5)
+				{
+					0 => Ins::MovImm(g.rng.below(8) as u8, E::Num(0)),
+					1 => Ins::AddImm(g.rng.below(8) as u8, E::Num(0)),
+					2 => Ins::CmpImm(g.rng.below(8) as u8, E::Num(0)),
+					3 => Ins::LdrOff(g.rng.below(8) as u8, g.rng.below(8) as u8, E::Num(0)),
+					_ => Ins::Svc(E::Num(0)),
+				})},
+			13 | 14 | 15 => {shape.push("branch"); St::Ins(match g.rng.below(3)
+				{
+					0 => Ins::Branch(None, E::Num(0)),
+					1 => Ins::Branch(Some(COND_NAMES[g.rng.below(16) as usize].1), E::Num(0)),
+					_ => Ins::Bl(E::Num(0)),
+				})},
+			16 => {shape.push("pc-rel"); St::Ins(if g.rng.chance(1, 2) {Ins::Adr(g.rng.below(8) as u8, E::Num(0))} else {Ins::LdrLit(g.rng.below(8) as u8, E::Num(0))})},
+			17 if depth < 2 =>
+			{
+				shape.push("include");
+				g.next_file += 1;
+				let fname = format!("inc{}.asm", g.next_file);
+				// the child: own scope; exports some labels with .global; imports some parent constants
+				let saved_known = std::mem::take(&mut g.known);
+				let mut child_labels = Vec::new();
+				let mut child = Vec::new();
+				let imports: Vec<String> = saved_known.iter().filter(|_| g.rng.chance(1, 3)).cloned().collect();
+				for n in &imports {child.push(St::Import(n.clone())); g.known.push(n.clone());}
+				let k = 1 + g.rng.below(5) as usize;
+				let inner = gen_body(g, k, depth + 1, shape, &mut child_labels);
+				// .global declarations before or after the definitions
+				let exported: Vec<String> = child_labels.iter().filter(|_| g.rng.chance(1, 2)).cloned().collect();
+				let (pre, post): (Vec<_>, Vec<_>) = exported.iter().cloned().partition(|_| g.rng.chance(1, 2));
+				for n in pre {child.push(St::Global(n));}
+				child.extend(inner);
+				for n in post {child.push(St::Global(n));}
+				// what the child may use in deferred position: its own labels + imports; recorded in the statements themselves later
+				let child_names: Vec<String> = g.known.clone();
+				g.known = saved_known;
+				for n in &exported {g.known.push(n.clone());}
+				let _ = child_names;
+				St::Include(fname, child)
+			},
+			_ => {shape.push("fixed-instr"); let (t, f) = g.rng.pick(FIXED); St::Ins(Ins::Fixed(t.to_string(), f()))},
+		};
+		body.push(st);
+	}
+	for l in future {body.push(St::Label(l.clone())); g.known.push(l); placed += 1;}
+	let _ = placed;
+	body
+}
+
+/// names a statement list defines (labels, consts) and, for includes, what the child makes visible to it
+fn visible_names(stmts: &[St], own: &mut Vec<String>)
+{
+	for st in stmts
+	{
+		match st
+		{
+			St::Label(n) | St::Const(n, _) => own.push(n.clone()),
+			St::Import(n) => own.push(n.clone()),
+			St::Include(_, body) =>
+			{
+				// only the child's .global names
+				fn globals(b: &[St], out: &mut Vec<String>) {for s in b {if let St::Global(n) = s {out.push(n.clone());}}}
+				globals(body, own);
+			},
+			_ => (),
+		}
+	}
+}
+
+/// fill the placeholder expressions (`E::Num(0)` put by gen_body) with expressions over names visible in that file
+fn fill_exprs(stmts: &mut Vec<St>, rng: &mut Rng, env: &HashMap<String, i64>, start: Option<u32>) -> Option<u32>
+{
+	let mut own = Vec::new();
+	visible_names(stmts, &mut own);
+	let mut cursor = start;
+	for st in stmts.iter_mut()
+	{
+		let here = cursor;
+		// advance the cursor first (sizes are value independent)
+		match &mut *st
+		{
+			St::Addr(a) => {cursor = Some(*a);},
+			St::Include(_, body) => {cursor = fill_exprs(body, rng, env, cursor);},
+			other => {if let Some(c) = cursor.as_mut() {*c = c.wrapping_add(st_size(&*other, *c));}},
+		}
+		let sym = |rng: &mut Rng| -> Option<(String, i64)>
+		{
+			if own.is_empty() || rng.chance(1, 4) {None} else {let n = rng.pick(&own).clone(); env.get(&n).map(|v| (n, *v))}
+		};
+		match st
+		{
+			St::Du(k, e) =>
+			{
+				let max: i64 = match k {1 => 0xFF, 2 => 0xFFFF, _ => 0xFFFF_FFFF};
+				let s = sym(rng);
+				let want = match &s
+				{
+					Some((_, v)) if *v >= 0 && *v <= max && rng.chance(1, 2) => *v,
+					_ => {let r = (rng.next() as i64).rem_euclid(max + 1); *rng.pick(&[0, 1, max, max - 1, max / 2, r])},
+				};
+				*e = expr_for(rng, s.as_ref().map(|(n, v)| (n.as_str(), *v)), want);
+			},
+			St::Ins(ins) =>
+			{
+				let addr = here?;
+				let s = sym(rng);
+				let sr = s.as_ref().map(|(n, v)| (n.as_str(), *v));
+				match ins
+				{
+					Ins::MovImm(_, e) | Ins::AddImm(_, e) | Ins::CmpImm(_, e) | Ins::Svc(e) => {let r = rng.below(256) as i64; let w = *rng.pick(&[0, 1, 255, 254, 128, r]); *e = expr_for(rng, sr, w)},
+					Ins::LdrOff(_, _, e) => {let r = rng.below(32) as i64; let w = 4 * *rng.pick(&[0, 1, 31, 30, r]); *e = expr_for(rng, sr, w)},
+					Ins::Branch(c, e) =>
+					{
+						// prefer a real label as the target when one is in range
+						let (lo, hi) = if c.is_none() {(-2048i64, 2046i64)} else {(-256, 254)};
+						let pc = addr as i64 + 4;
+						let cands: Vec<(String, i64)> = own.iter().filter_map(|n| env.get(n).map(|v| (n.clone(), *v)))
+							.filter(|(_, v)| (*v - pc) >= lo && (*v - pc) <= hi && (*v - pc) % 2 == 0 && *v >= 0).collect();
+						if !cands.is_empty() && rng.chance(3, 4)
+						{
+							let (n, _) = rng.pick(&cands).clone();
+							*e = E::Name(n);
+						}
+						else
+						{
+							let off = *rng.pick(&[lo, hi, 0, -2, 2, -4]);
+							let tgt = pc + off;
+							if tgt < 0 || tgt > 0xFFFF_FFFF {*e = E::Num(pc);} else {*e = expr_for(rng, sr, tgt);}
+						}
+					},
+					Ins::Bl(e) =>
+					{
+						let pc = addr as i64 + 4;
+						let cands: Vec<(String, i64)> = own.iter().filter_map(|n| env.get(n).map(|v| (n.clone(), *v)))
+							.filter(|(_, v)| (*v - pc).abs() < (1 << 24) && (*v - pc) % 2 == 0 && *v >= 0).collect();
+						if !cands.is_empty() && rng.chance(3, 4) {*e = E::Name(rng.pick(&cands).0.clone());}
+						else
+						{
+							let off = *rng.pick(&[-(1i64 << 24), (1 << 24) - 2, 0, -4, 4096]);
+							let tgt = pc + off;
+							if tgt < 0 || tgt > 0xFFFF_FFFF {*e = E::Num(pc);} else {*e = expr_for(rng, sr, tgt);}
+						}
+					},
+					Ins::Adr(_, e) | Ins::LdrLit(_, e) =>
+					{
+						let al = (addr & !3) as i64 + 4;
+						let cands: Vec<(String, i64)> = own.iter().filter_map(|n| env.get(n).map(|v| (n.clone(), *v)))
+							.filter(|(_, v)| (*v - al) >= 0 && (*v - al) <= 1020 && (*v - al) % 4 == 0).collect();
+						if !cands.is_empty() && rng.chance(3, 4) {*e = E::Name(rng.pick(&cands).0.clone());}
+						else
+						{
+							let tgt = al + 4 * *rng.pick(&[0i64, 255, 1, 254]);
+							if tgt > 0xFFFF_FFFF {*e = E::Num(al);} else {*e = expr_for(rng, sr, tgt);}
+						}
+					},
+					Ins::Fixed(..) => (),
+				}
+			},
+			_ => (),
+		}
+	}
+	cursor
+}
+
+pub fn generate(rng: &mut Rng) -> Option<Generated>
+{
+	let mut shape = Vec::new();
+	let mut g = Gen{rng, next_name: 0, known: Vec::new(), usable: Vec::new(), files: Vec::new(), next_file: 0};
+	let _ = &g.usable;
+	let nregions = 1 + g.rng.below(4) as usize;
+	let mut regions: Vec<Region> = Vec::new();
+	let mut all_labels = Vec::new();
+	for _ in 0..nregions
+	{
+		let n = 1 + g.rng.below(9) as usize;
+		let stmts = gen_body(&mut g, n, 0, &mut shape, &mut all_labels);
+		regions.push(Region{stmts});
+	}
+	// choose bases: far apart, adjacent after, adjacent before (only when the size does not depend on the base), near the top
+	let mut placed: Vec<(u32, u32)> = Vec::new(); // (base, size)
+	let mut stmts: Vec<St> = Vec::new();
+	let has_align = |r: &Region| -> bool
+	{
+		fn any(b: &[St]) -> bool {b.iter().any(|s| matches!(s, St::Align(..)) || matches!(s, St::Include(_, x) if any(x)))}
+		any(&r.stmts)
+	};
+	let size_at = |r: &Region, base: u32| -> Option<u32>
+	{
+		let mut c = base;
+		for s in &r.stmts {c = c.checked_add(st_size(s, c))?;}
+		Some(c - base)
+	};
+	for r in regions.iter()
+	{
+		let mut base = None;
+		for _try in 0..20
+		{
+			let cand: u32 = match g.rng.below(10)
+			{
+				0 | 1 if !placed.is_empty() => {shape.push("adjacent-after"); let (b, s) = *g.rng.pick(&placed); match b.checked_add(s) {Some(x) => x, None => continue}},
+				2 | 3 if !placed.is_empty() && !has_align(r) =>
+				{
+					let (b, _) = *g.rng.pick(&placed);
+					let sz = match size_at(r, 0) {Some(s) => s, None => continue};
+					if sz == 0 || b < sz {continue;}
+					shape.push("adjacent-before");
+					b - sz
+				},
+				4 => {let sz = size_at(r, 0).unwrap_or(0); if has_align(r) || sz == 0 {continue;} shape.push("top-of-space"); (0xFFFF_FFFFu32 - sz).wrapping_add(1)},
+				5 => 0x1000_0000 + (g.rng.below(64) as u32) * 4,
+				6 => g.rng.below(16) as u32,
+				_ => 0x2000_0000 + (g.rng.below(1 << 20) as u32),
+			};
+			let Some(sz) = size_at(r, cand) else {continue};
+			let end = cand as u64 + sz as u64;
+			if end > 1 << 32 {continue;}
+			// no overlap with placed regions (an empty region may not start inside another either)
+			if placed.iter().any(|(b, s)| (cand as u64) < *b as u64 + *s as u64 && (*b as u64) < end.max(cand as u64 + 1)) {continue;}
+			// an empty earlier region at the same base would make `.addr` a no-op/refusal ambiguity: avoid equal bases
+			if placed.iter().any(|(b, _)| *b == cand) {continue;}
+			base = Some((cand, sz));
+			break;
+		}
+		let (b, sz) = base?;
+		placed.push((b, sz));
+		stmts.push(St::Addr(b));
+		stmts.extend(r.stmts.iter().cloned());
+	}
+	// pass 1 with placeholder expressions (sizes are value independent, consts only use known names)
+	let mut env = HashMap::new();
+	let mut cursor = None;
+	pass1(&stmts, &mut cursor, &mut env)?;
+	let mut frng = g.rng.fork();
+	fill_exprs(&mut stmts, &mut frng, &env, None);
+	// reference image
+	let mut image = BTreeMap::new();
+	let mut cursor = None;
+	pass2(&stmts, &mut cursor, &env, &mut image)?;
+	let mut files = Vec::new();
+	let mut rrng = g.rng.fork();
+	let main = render_stmts(&stmts, &mut rrng, &mut files);
+	let mut all = vec![("main.asm".to_owned(), main.into_bytes())];
+	all.extend(files);
+	Some(Generated{stmts, project: Project{files: all}, image, env, shape})
+}
+
+fn image_str(img: &BTreeMap<u32, u8>) -> String
+{
+	let mut out = String::new();
+	let mut prev: Option<u32> = None;
+	for (a, b) in img
+	{
+		if prev.map_or(true, |p| p.wrapping_add(1) != *a || *a == 0) {if !out.is_empty() {out.push(' ');} out.push_str(&format!("{a:08x}:"));}
+		out.push_str(&format!("{b:02x}"));
+		prev = Some(*a);
+	}
+	if out.is_empty() {"-".to_owned()} else {out}
+}
+
+// ---------------------------------------------------------------------------------------------------------
+// C05
+
+fn check_c05(cx: &mut Cx, gen: &Generated, dir: &std::path::Path)
+{
+	gen.project.write(dir);
+	let input = gen.project.to_input();
+	match run_real(dir)
+	{
+		Err(p) => cx.report.oracle_fail(input, format!("panic: {p}")),
+		Ok(o) =>
+		{
+			let ok = o.assemble_ok && o.close_err.is_none() && o.finalize && o.errors.is_empty();
+			let img = image_str(&o.image);
+			cx.report.case(if gen.image.is_empty() {None} else {Some(&img)});
+			if !ok
+			{
+				cx.report.oracle_fail(input, format!("a well-formed program was not assembled cleanly: assemble_ok={} close={:?} finalize={} errors={:?}",
+					o.assemble_ok, o.close_err, o.finalize, o.errors.iter().take(3).collect::<Vec<_>>()));
+			}
+			else if o.image != gen.image
+			{
+				let want = image_str(&gen.image);
+				let diff = gen.image.iter().find(|(a, b)| o.image.get(a) != Some(b)).map(|(a, b)| format!("at {a:08x} expected {b:02x} got {:?}", o.image.get(a)))
+					.or_else(|| o.image.iter().find(|(a, _)| !gen.image.contains_key(a)).map(|(a, b)| format!("unexpected byte {b:02x} at {a:08x}")));
+				cx.report.oracle_fail(input, format!("image differs from the sequential layout: {} | expected {} | got {}", diff.unwrap_or_default(), &want[..want.len().min(300)], &img[..img.len().min(300)]));
+			}
+			else
+			{
+				// segments maximal and ascending
+				for w in o.segments.windows(2)
+				{
+					if w[0].0 as u64 + w[0].1 as u64 >= w[1].0 as u64 + 0 && w[0].0 as u64 + w[0].1 as u64 > w[1].0 as u64
+					{
+						cx.report.oracle_fail(gen.project.to_input(), "output segments overlap");
+					}
+				}
+			}
+		},
+	}
+}
+
+// ---------------------------------------------------------------------------------------------------------
+// C06
+
+const INVALID: &[(&str, &str)] = &[
+	("register-as-constant", ".const R0, 1;"),
+	("register-as-constant", ".const sp, 1;"),
+	("register-as-constant", ".global R7;"),
+	("register-as-constant", ".global PRIMASK;"),
+	("register-as-constant", "pc:"),
+	("arity", ".du8;"),
+	("arity", ".du8 1, 2;"),
+	("arity", "NOP 1;"),
+	("arity", "ADCS R0;"),
+	("arity", "ADCS R0, R1, R2;"),
+	("arity", ".addr;"),
+	("arity", ".const x9;"),
+	("arity", ".include;"),
+	("arity", ".global;"),
+	("kind", ".du8 \"s\";"),
+	("kind", ".dstr 5;"),
+	("kind", ".dhex 5;"),
+	("kind", ".dfile 5;"),
+	("kind", "MOVS R0, \"x\";"),
+	("kind", "MOVS 5, R0;"),
+	("kind", ".addr \"x\";"),
+	("kind", ".include 5;"),
+	("kind", ".const 5, 5;"),
+	("kind", ".global 5;"),
+	("kind", "PUSH R0;"),
+	("kind", "LDR R0, {R1};"),
+	("kind", ".du8 [R0];"),
+	("kind", ".du8 \"a\" + 1;"),
+	("unknown", "FOO R0;"),
+	("unknown", ".bar 1;"),
+	("unknown", "ADC R0, R1;"),
+	("unknown", "MOVS_TOO_LONG_MNEMONIC R0;"),
+	("range", ".du8 256;"),
+	("range", ".du8 0 - 1;"),
+	("range", ".du16 65536;"),
+	("range", ".du32 0x100000000;"),
+	("range", "MOVS R0, 256;"),
+	("range", "MOVS R8, 1;"),
+	("range", "ADDS R0, R0, 0 - 1;"),
+	("range", ".addr 0x100000000;"),
+	("range", ".align 0;"),
+	("range", "LDR R0, [R1 + 3];"),
+	("range", "SVC 256;"),
+	("range", "LSLS R0, R1, 32;"),
+	("range", "BX PC;"),
+	("range", "CMP PC, R0;"),
+	("range", ".du8 1 << 64;"),
+	("range", ".du8 1 / 0;"),
+	("range", ".du32 0x7FFFFFFFFFFFFFFF + 1;"),
+	("undefined", ".du8 nope;"),
+	("undefined", "MOVS R0, nope;"),
+	("undefined", "B nope;"),
+	("undefined", ".const c9, nope;"),
+	("undefined", ".addr nope;"),
+	("undefined", ".export nope;"),
+	("undefined", ".import nope;"),
+	("undefined", ".global never_defined;"),
+	("duplicate", ".const dup, 1; .const dup, 2;"),
+	("duplicate", "dupl: dupl:"),
+	("duplicate", ".global g9; .global g9;"),
+	("hex", ".dhex \"0g\";"),
+	("hex", ".dhex \"abc\";"),
+	("file", ".dfile \"missing.bin\";"),
+	("file", ".include \"missing.asm\";"),
+	("parse", "MOVS R0 R1;"),
+	("parse", "MOVS R0, ;"),
+	("parse", ".du8 (1;"),
+	("parse", ".dstr \"abc;"),
+	("parse", "/* unclosed"),
+	("parse", ".du8 '';"),
+	("parse", ".du8 0x;"),
+	("parse", ".du8 99999999999999999999;"),
+	("parse", "NOP"),
+	("parse", "?"),
+];
+
+/// (kind, text) programs that failed at design time (DESIGN.md §5) and regressions
+const CORPUS: &[(&str, &[u8])] = &[
+	("F10", b".addr 0x104; .du32 1; .addr 0x100; NOP; NOP; NOP;"),
+	("F11", b".addr 0x104; .du16 fwd; .addr 0x100; .du32 7; .const fwd,1;"),
+	("F12", b".addr 0x100; .du8 1; .addr 0x100; .du8 2;"),
+	("F14", b".const R0, 1;"),
+	("F14", b".global R0;"),
+	("F15", b".addr 0; MOVS R0, (R1 & 3) & 5;"),
+	("F15", b".addr 0; .global x; .du8 (x|3)|4; .const x, 8;"),
+	("F15", b".addr 0; .global x; .du8 (x^3)^4; .const x, 8;"),
+	("F18", "/* x */ \u{e9}".as_bytes()),
+	("F18", "/* \u{e9}".as_bytes()),
+	("F19", b".dstr \"a\nb\";"),
+	("F19", b".dstr \"a\x7Fb\";"),
+	("F22", b".addr 0xFFFFFFFF; .du8 1; .du8 2;"),
+	("F22", b".addr 0xFFFFFFFE; .du16 0x1234; .du8 0x55;"),
+	("F22", b".addr 0xFFFFFFFE; NOP; NOP;"),
+	("misc", b".du8 1;"),
+	("misc", b"NOP;"),
+	("misc", b"x:"),
+	("misc", b".align 4;"),
+	("misc", b".addr 0; .addr 0; .addr 4; .addr 0;"),
+	("misc", b".addr 0; .du8 x; .addr 8; x: .addr 16; .du8 x;"),
+	("misc", b".addr 4; .du32 1; .addr 0; .du32 2; .du8 3;"),
+	("misc", b".addr 0xFFFFFF00; .align 0xFFFFFFFF;"),
+	("misc", b".addr 0xFFFFFFF1; .align 0x80000000;"),
+	("misc", b".addr 0xFFFFFFF0; .align 0x100;"),
+	("misc", b".addr 0; BL 0x1000002;"),
+	("misc", b".addr 0xFFFFFFFC; B 0;"),
+	("misc", b".addr 0; .du8 -(-9223372036854775807 - 1);"),
+	("misc", b".addr 0; .du8 f(1, 2);"),
+	("misc", b".addr 0; .du8 {1};"),
+	("misc", b".addr 0; .global a; .global b; .du8 a + b; .const a, 1; .const b, 2;"),
+	("misc", b".addr 0; .global a; .du8 (a - 5) - (3 - a);"),
+	("misc", b".addr 0; .global a; .du8 2 / (a / 3); .const a, 3;"),
+	("misc", b".addr 0; .global a; .du8 (a / 0) / 2; .const a, 3;"),
+	("misc", b".addr 0; .global a; .du8 (a % 0) % 2; .const a, 3;"),
+	("misc", b".addr 0; .global a; .du8 (a * 9223372036854775807) * 2; .const a, 0;"),
+	("misc", b".addr 0; .global a; .du8 -(a - 5); .const a, 0;"),
+	("misc", b".addr 0; .global a; .du8 !a & 0xFF; .const a, 0;"),
+	("misc", b".addr 0; .global a; .du8 (a << 1) << 2; .const a, 1;"),
+	("misc", b".addr 0; .global a; .du8 1 - -a; .const a, 1;"),
+	("misc", b".addr 0; .global a; .du8 (a + -9223372036854775807) + -9223372036854775807; .const a, 1;"),
+];
+
+#[derive(Clone, Debug, PartialEq)]
+enum Expect {Any, MustFail}
+
+fn check_c06(cx: &mut Cx, project: &Project, expect: Expect, class: &str, dir: &std::path::Path)
+{
+	project.write(dir);
+	let input = project.to_input();
+	match run_real(dir)
+	{
+		Err(p) =>
+		{
+			cx.report.case(Some("panic"));
+			cx.report.hit(&format!("{class}: PANIC"));
+			cx.report.oracle_fail(input, format!("panic: {p}"));
+		},
+		Ok(o) =>
+		{
+			let success = o.close_err.is_none() && o.finalize;
+			let outcome = if success {"success".to_owned()} else
+			{
+				format!("fail:{}", o.errors.first().map(|e| e.3.split(" <- ").last().unwrap_or("").chars().take(40).collect::<String>()).unwrap_or_else(|| o.close_err.clone().unwrap_or_default()))
+			};
+			cx.report.case(Some(&outcome));
+			cx.report.hit(&format!("{class}: {}", if success {"success"} else {"diagnosed"}));
+			if success
+			{
+				if !o.errors.is_empty() {cx.report.oracle_fail(input.clone(), "success reported although diagnostics were recorded");}
+				if !o.assemble_ok {cx.report.oracle_fail(input.clone(), "assemble() returned an error but no diagnostic was recorded and finalize() reported success");}
+				if expect == Expect::MustFail {cx.report.oracle_fail(input.clone(), format!("an invalid construct ({class}) was accepted without a diagnostic"));}
+			}
+			else
+			{
+				if o.close_err.is_none() && o.errors.is_empty()
+				{
+					cx.report.oracle_fail(input.clone(), "failure without any recorded diagnostic");
+				}
+				for (file, line, col, msg) in &o.errors
+				{
+					if file.is_empty() || *line < 1 || *col < 1
+					{
+						cx.report.oracle_fail(input.clone(), format!("diagnostic without a proper position: {file:?} {line}:{col} {msg}"));
+						break;
+					}
+				}
+			}
+		},
+	}
+}
+
+fn mutate(rng: &mut Rng, data: &mut Vec<u8>)
+{
+	let n = 1 + rng.below(3);
+	for _ in 0..n
+	{
+		if data.is_empty() {data.push(rng.next() as u8); continue;}
+		let p = rng.below(data.len() as u64) as usize;
+		match rng.below(7)
+		{
+			0 => {data.remove(p);},
+			1 => {let b = data[p]; data.insert(p, b);},
+			2 => data[p] ^= 1 << rng.below(8),
+			3 => data[p] = *rng.pick(&[b'"', b'\'', b'\\', b'/', b'*', b';', b'(', b'[', b'{', b'\n', 0x7F, 0xC3, 0xFF, b'0', b'x', b'-']),
+			4 =>
+			{
+				let q = rng.below(data.len() as u64) as usize;
+				let (a, b) = (p.min(q), p.max(q));
+				let piece: Vec<u8> = data[a..b].to_vec();
+				let at = rng.below(data.len() as u64 + 1) as usize;
+				for (i, x) in piece.into_iter().enumerate() {data.insert(at + i, x);}
+			},
+			5 => data.truncate(p),
+			_ => data.insert(p, *rng.pick(&[b' ', b'\t', 0xE2, 0x82, 0xAC, b'\r'])),
+		}
+	}
+}
+
+/// K2: a file that includes itself — run the real `trias` in a child process and observe how it ends
+fn self_include(cx: &mut Cx, dir: &std::path::Path, cycle: usize)
+{
+	let _ = std::fs::remove_dir_all(dir);
+	std::fs::create_dir_all(dir).unwrap();
+	for i in 0..cycle
+	{
+		let next = if i + 1 == cycle {"main.asm".to_owned()} else {format!("f{}.asm", i + 1)};
+		let name = if i == 0 {"main.asm".to_owned()} else {format!("f{i}.asm")};
+		std::fs::write(dir.join(name), format!(".addr 0x20000000;\n.include \"{next}\";\n")).unwrap();
+	}
+	let exe = repo_bin("trias");
+	if !exe.exists()
+	{
+		cx.report.notes.push("trias executable not built; self-include case skipped".to_owned());
+		return;
+	}
+	let out = std::process::Command::new(&exe).arg(dir.join("main.asm")).output();
+	cx.report.case(Some("selfinclude"));
+	match out
+	{
+		Ok(o) =>
+		{
+			use std::os::unix::process::ExitStatusExt;
+			if let Some(sig) = o.status.signal()
+			{
+				cx.report.hit("selfinclude: killed by signal");
+				cx.report.oracle_fail(format!("selfinclude {cycle}"), format!("trias on a project whose include graph has a cycle of length {cycle} was killed by signal {sig} (stack overflow) instead of reporting a diagnostic"));
+			}
+			else
+			{
+				cx.report.hit("selfinclude: exited");
+				let err = String::from_utf8_lossy(&o.stderr);
+				if !err.contains("Error") && !err.contains("error")
+				{
+					cx.report.oracle_fail(format!("selfinclude {cycle}"), format!("trias on a cyclic include ended with status {:?} without a diagnostic", o.status.code()));
+				}
+			}
+		},
+		Err(e) => cx.report.notes.push(format!("could not run trias: {e}")),
+	}
+}
+
+// ---------------------------------------------------------------------------------------------------------
 
 pub fn run(id: &str, cx: &mut Cx)
 {
-	cx.report.notes.push(format!("component for {id} not implemented"));
-	cx.report.oracle_fail("-", "harness component not implemented");
+	let dir = cx.work.join("proj");
+	if let Some(input) = cx.replay.clone()
+	{
+		if let Some(rest) = input.strip_prefix("selfinclude")
+		{
+			self_include(cx, &dir, rest.trim().parse().unwrap_or(1));
+			return;
+		}
+		match Project::from_input(&input)
+		{
+			None => cx.report.oracle_fail(input, "unrecognised replay input"),
+			Some(p) =>
+			{
+				if id == "C05"
+				{
+					// without the AST the reference is unknown: re-run and report the outcome only
+					p.write(&dir);
+					match run_real(&dir)
+					{
+						Err(e) => cx.report.oracle_fail(input, format!("panic: {e}")),
+						Ok(o) => cx.report.notes.push(format!("outcome: ok={} errors={:?} image={}", o.finalize, o.errors, image_str(&o.image))),
+					}
+				}
+				else {check_c06(cx, &p, Expect::Any, "replay", &dir);}
+			},
+		}
+		return;
+	}
+	match id
+	{
+		"C05" =>
+		{
+			cx.report.rule = "programs generated from an AST (1-4 regions: far apart / adjacent after / adjacent before / top of the address space / flash; \
+labels, constants, .du8/16/32 with expressions over forward and backward symbols, .dstr/.dhex/.dfile, .align, literal and PC-relative instructions, \
+.include with .global/.import) rendered with random spacing/comments; oracle = two-pass reference layout computed from the AST; \
+non-trivial = non-empty image; distinct = distinct images".to_owned();
+			let n = if cx.thorough() {200_000} else {12_000};
+			let mut made = 0;
+			let mut tries = 0;
+			while made < n && tries < n * 4
+			{
+				tries += 1;
+				let mut rng = cx.rng.fork();
+				let Some(gen) = generate(&mut rng) else {cx.report.hit("generator: rejected draft"); continue};
+				made += 1;
+				for s in &gen.shape {cx.report.hit(&format!("shape: {s}"));}
+				if made <= 3 {cx.report.sample(String::from_utf8_lossy(&gen.project.files[0].1).chars().take(400).collect::<String>());}
+				check_c05(cx, &gen, &dir);
+				if cx.report.oracle_failures_total >= 20 {break;}
+			}
+			cx.report.hit_n("programs", made as u64);
+		},
+		"C06" =>
+		{
+			cx.report.rule = "(a) corpus of design-time panics and regressions; (b) well-formed generated programs with one ill-formed construct \
+(register as constant, arity, kind, unknown name, range, undefined, duplicate, bad hex, missing file, parse error) spliced in at a random statement boundary \
+or placed before any .addr; (c) byte-level mutations (delete/duplicate/flip/splice/truncate) of generated programs; (d) cyclic includes in a child process (K2). \
+oracle = no panic; success xor (diagnostic with file/line/col or close error); invalid constructs diagnosed; non-trivial/distinct = distinct outcome classes (first diagnostic text)".to_owned();
+			for (tag, text) in CORPUS
+			{
+				check_c06(cx, &Project::single(text), Expect::Any, &format!("corpus {tag}"), &dir);
+			}
+			// every invalid construct alone, after .addr, and before any .addr
+			for (class, text) in INVALID
+			{
+				check_c06(cx, &Project::single(format!(".addr 0x100;\n{text}\n").as_bytes()), Expect::MustFail, class, &dir);
+				check_c06(cx, &Project::single(format!("{text}\n").as_bytes()), Expect::MustFail, class, &dir);
+			}
+			// writes before .addr
+			for text in ["NOP;", ".du8 1;", ".dstr \"a\";", ".dhex \"00\";", ".align 4;", "x:", ".dfile \"main.asm\";", "B 0;"]
+			{
+				check_c06(cx, &Project::single(text.as_bytes()), Expect::MustFail, "write-before-addr", &dir);
+			}
+			let n = if cx.thorough() {120_000} else {8_000};
+			let mut made = 0;
+			while made < n
+			{
+				let mut rng = cx.rng.fork();
+				let Some(gen) = generate(&mut rng) else {continue};
+				made += 1;
+				if made % 2 == 0
+				{
+					// splice an invalid construct into main.asm at a statement boundary
+					let (class, text) = rng.pick(INVALID);
+					let main = String::from_utf8_lossy(&gen.project.files[0].1).into_owned();
+					let cuts: Vec<usize> = main.char_indices().filter(|(_, c)| *c == ';' || *c == ':').map(|(i, _)| i + 1).collect();
+					let at = if cuts.is_empty() || rng.chance(1, 8) {0} else {*rng.pick(&cuts)};
+					// a `;` inside a string or comment would make the splice land inside it: only accept boundaries followed by a line end
+					let ok_at = at == 0 || main[at..].starts_with('\n') || main[at..].starts_with("\r\n") || main[at..].starts_with("\n\t");
+					if !ok_at {made -= 1; continue;}
+					let mut m = main.clone();
+					m.insert_str(at, &format!("\n{text}\n"));
+					let mut p = gen.project.clone();
+					p.files[0].1 = m.into_bytes();
+					// a parse-class construct that lacks its terminator swallows what follows; anything is fine but it must fail
+					check_c06(cx, &p, Expect::MustFail, class, &dir);
+					if made <= 4 {cx.report.sample(format!("{class}: {text}"));}
+				}
+				else
+				{
+					let mut p = gen.project.clone();
+					let k = rng.below(p.files.len() as u64) as usize;
+					if p.files[k].0.ends_with(".bin") {made -= 1; continue;}
+					mutate(&mut rng, &mut p.files[k].1);
+					check_c06(cx, &p, Expect::Any, "mutation", &dir);
+				}
+				if cx.report.oracle_failures_total >= 20 {break;}
+			}
+			for cycle in [1usize, 2] {self_include(cx, &dir, cycle);}
+		},
+		_ => unreachable!(),
+	}
+	let _ = std::fs::remove_dir_all(&dir);
 }
